@@ -436,6 +436,9 @@ def int_to_str(ex, v):
     t = int2str(v.t)
     ex.assume(str2int(t, z3.IntVal(10)) == v.t)
     ex.assume(z3.Length(t) >= 1)
+    # str(int) is an optional minus sign and decimal digits without leading zeros
+    d = z3.Range('0', '9')
+    ex.assume(z3.InRe(t, z3.Concat(z3.Option(z3.Re('-')), z3.Union(z3.Re('0'), z3.Concat(z3.Range('1', '9'), z3.Star(d))))))
     return VStr(t)
 
 
@@ -824,6 +827,12 @@ def _str(ex, fn, args, kw, node):
         return int_to_str(ex, v)
     if isinstance(v, VNone):
         return VStr('None')
+    cls = v.cls if isinstance(v, VOpaque) else (ex.cell(v).cls if isinstance(v, VPtr) and isinstance(ex.cell(v), ObjCell) else None)
+    if cls:
+        info = ex.find_class(cls)
+        m = info.find_method('__str__') if info is not None else None
+        if m is not None and ex.is_subclass_name(cls, 'CIMInt'):
+            return ex.call_function(m, [v], {}, node)
     # str() of arbitrary objects: an unconstrained string (A-FMT)
     ex.used_assumptions.add('A-FMT: str()/repr()/format of objects is total and opaque')
     return VStr(z3.String(ex.fresh_name('str')))
@@ -1219,6 +1228,10 @@ def _strip(ex, fn, args, kw, node):
     mid = z3.String(ex.fresh_name('core'))
     post = z3.String(ex.fresh_name('rws'))
     ex.assume(s.t == z3.Concat(pre, mid, post))
+    # text that neither starts nor ends with a stripped character is returned unchanged
+    nonws = z3.Diff(z3.AllChar(z3.ReSort(z3.StringSort())), cls)
+    ex.assume(z3.Implies(z3.InRe(s.t, z3.Union(nonws, z3.Concat(nonws, z3.Star(z3.AllChar(z3.ReSort(z3.StringSort()))), nonws))),
+                         mid == s.t))
     ex.assume(z3.InRe(pre, z3.Star(cls)))
     ex.assume(z3.InRe(post, z3.Star(cls)))
     if which in ('strip', 'lstrip'):
@@ -1681,3 +1694,11 @@ def _nd_values(ex, fn, args, kw, node):
     seq = z3.Function('nd_values', RefSort, z3.SeqSort(RefSort))(d.t)
     elem = (ex.top_contract.kinds.get('nocasedict.values') if ex.top_contract is not None else None) or 'ref'
     return ex.alloc(ListCell(seq, elem))
+
+
+@builtin('int.__repr__', 'int.__str__')
+def _int_repr(ex, fn, args, kw, node):
+    v = ex.res(args[0])
+    if isinstance(v, VOpaque):
+        return int_to_str(ex, VInt(intval(v.t)))
+    return int_to_str(ex, VInt(ex.flat(v, 'int')))
